@@ -21,6 +21,7 @@ import (
 
 	"github.com/coredhcp/coredhcp/handler"
 	"github.com/coredhcp/coredhcp/plugins/file"
+	"github.com/insomniacslk/dhcp/dhcpv4"
 	"github.com/insomniacslk/dhcp/dhcpv6"
 	"verif/harness/core"
 	"verif/harness/gen"
@@ -44,6 +45,8 @@ type Rewrite struct {
 	Lines []Line `json:"lines"`
 	// Append: add the lines to the file with one O_APPEND write instead of rewriting it in place
 	Append bool `json:"append,omitempty"`
+	// Pause: milliseconds to wait before this rewrite (0 = back to back with the previous one)
+	Pause int `json:"pause,omitempty"`
 }
 
 // Case is one lease-file scenario
@@ -201,7 +204,15 @@ func lookup4(h handler.Handler4, hw []byte) (net.IP, *core.Violation) {
 		return nil, core.Violate("C10/harness", "bad probe")
 	}
 	before := stub.ToBytes()
-	out, stop := h(req, stub)
+	var out *dhcpv4.DHCPv4
+	var stop bool
+	returned, pan := core.Call(20*time.Second, func() { out, stop = h(req, stub) })
+	if pan != nil {
+		panic(pan)
+	}
+	if !returned {
+		return nil, core.Violate("C10/wedged", "the DHCPv4 handler did not return within 20 s (lookup of %x)", hw)
+	}
 	if out == nil {
 		return nil, core.Violate("C10/v4/nil-reply", "handler returned nil for %x", hw)
 	}
@@ -262,7 +273,15 @@ func lookup6(h handler.Handler6, hw []byte, via string, withIANA bool, mt uint8)
 		return nil, core.Violate("C10/harness", "bad v6 probe")
 	}
 	before, _ := gen.Options6(stub.ToBytes()[4:])
-	out, stop := h(req, stub)
+	var out dhcpv6.DHCPv6
+	var stop bool
+	returned, pan := core.Call(20*time.Second, func() { out, stop = h(req, stub) })
+	if pan != nil {
+		panic(pan)
+	}
+	if !returned {
+		return nil, core.Violate("C10/wedged", "the DHCPv6 handler did not return within 20 s (lookup of %x)", hw)
+	}
 	if out == nil || stop {
 		return nil, core.Violate("C10/v6/reply-dropped", "handler returned (nil=%v, stop=%v) for %x via %s", out == nil, stop, hw, via)
 	}
@@ -502,6 +521,10 @@ func Exec(c Case) (res core.Result) {
 
 const padTo = 8192
 
+// refreshDeadline is how long "eventually" may take (measured latency of a
+// reload on this machine: a few milliseconds)
+const refreshDeadline = 15 * time.Second
+
 // padded renders content to exactly padTo bytes with a trailing comment line,
 // so that a rewrite in place is one pwrite and never shrinks the file
 func padded(text string) []byte {
@@ -675,8 +698,14 @@ func execRefresh(c Case) (res core.Result) {
 	}
 	sawBadAfterGood, lastGood := false, false
 	fileLen := len(padded(text))
+	lastWrite := time.Now()
 	for i, rw := range c.Rewrites {
 		var ntext string
+		if rw.Pause > 0 {
+			time.Sleep(time.Duration(rw.Pause) * time.Millisecond)
+		}
+		sinceLast := time.Since(lastWrite)
+		lastWrite = time.Now()
 		if rw.Append {
 			add := Render(rw.Lines, false)
 			f, err := os.OpenFile(path, os.O_WRONLY|os.O_APPEND, 0)
@@ -726,20 +755,17 @@ func execRefresh(c Case) (res core.Result) {
 			}
 			continue
 		}
-		ok, v := ri.awaitSwitch(cur, next, 10*time.Second)
-		if v == nil && !ok {
-			// one more event, then a long grace period: "never reloads" cannot be told apart from "slow" otherwise
-			now := time.Now()
-			os.Chtimes(path, now, now)
-			ok, v = ri.awaitSwitch(cur, next, 20*time.Second)
-		}
+		// no further file event is generated while waiting: an implementation that
+		// drops the event of this update (throttling, coalescing without a trailing
+		// reload) would otherwise be rescued by the harness
+		ok, v := ri.awaitSwitch(cur, next, refreshDeadline)
 		if v != nil {
 			v.Message = fmt.Sprintf("rewrite %d: %s", i, v.Message)
 			res.Viol = v
 			return
 		}
 		if !ok {
-			res.Viol = core.Violate("C10/refresh/well-formed-update-never-applied", "rewrite %d: 30 s and two file events after a well-formed update the old mapping is still served", i)
+			res.Viol = core.Violate("C10/refresh/well-formed-update-never-applied", "rewrite %d: %v after a well-formed update (written %d ms after the previous rewrite) the old mapping is still served", i, refreshDeadline, sinceLast.Milliseconds())
 			return
 		}
 		cur = next
